@@ -250,4 +250,28 @@ theorem iterate_depth_recursion_unbounded (dl : Dialect) (hook : Hook) (n : Nat)
     show n < max (getInput .recursion dl hook (List.replicate n ([] : Str))).depth _
     omega
 
+/-! ### `parse_line` -/
+
+/-- iterations of the `for (pos = 0; pos < length && line[pos]; ++pos)` loop of `parse_line`, mirroring `go` (same
+    case analysis; the loop variable `pos` is the number of characters already dropped from the list): one per
+    character, except that a doubled quote inside quotes consumes two characters in one iteration (`++pos` in
+    the body) and NUL / an unquoted CR or LF leave the loop -/
+def parseSteps (dl : Dialect) : Str → Bool → Str → Nat
+  | [], _, _ => 0
+  | c :: rest, inq, cur =>
+    if c = '\x00' then 0
+    else if !inq && isBlank cur && c = '"' then parseSteps dl rest true (if dl.keepQuotes then cur ++ [c] else cur) + 1
+    else if inq && c = '"' then
+      match rest with
+      | c' :: rest' =>
+        if c' = '"' then parseSteps dl rest' true (cur ++ [c]) + 1
+        else parseSteps dl (c' :: rest') false (if dl.keepQuotes then cur ++ [c] else cur) + 1
+      | [] => 1
+    else if !inq && c = dl.delim then parseSteps dl rest false [] + 1
+    else if !inq && (c = '\r' || c = '\n') then 0
+    else parseSteps dl rest inq (cur ++ [c]) + 1
+
+theorem parseSteps_le (dl : Dialect) (s : Str) (inq : Bool) (cur : Str) : parseSteps dl s inq cur ≤ s.length := by
+  fun_induction parseSteps dl s inq cur <;> simp only [List.length_cons, List.length_nil] at * <;> omega
+
 end Vita.C10
